@@ -25,6 +25,8 @@ pub mod iter_ops;
 #[cfg(kani)]
 pub mod msp_ops;
 #[cfg(kani)]
+pub mod step_ops;
+#[cfg(kani)]
 pub mod stubs;
 #[cfg(kani)]
 pub mod gen;
